@@ -8,7 +8,7 @@ primitives (+ - * / min max tanh pow, comparisons) are uninterpreted constructor
 else is explicit.  TLC enumerates the classes (n1, n2) = (ceil(x4), ceil(2 x4)), checks structural invariants
 (expressions closed over the model's symbols, delay lines keep their length, the production store independent of
 the routing part) and emits the step function of every class.  The engine interprets the expressions in float64
-and iterates them over seeded cases (x1..x4 in the documented ranges, x4 anywhere in the class incl. its upper
+and iterates them over seeded cases (x1..x4 in the documented ranges [1,1500] / [-10,5] / [1,500] / [0.5,4], capacities log-uniform, x4 anywhere in the class incl. its upper
 end, non-negative rainfall/PET series of four styles incl. P = E, empty and arbitrary initial stores and delay
 lines), comparing runoff, both stores and every delay-line cell with the real model after EVERY timestep.
 """
